@@ -29,6 +29,16 @@ Open Scope Q_scope.
 Definition sig := nat -> C.
 Definition inj (n : nat) : Q := inject_Z (Z.of_nat n).
 
+(* Sums that keep every partial sum in lowest terms (Qred).  They are equal to Base's sumn / csumn
+   (Proofs/SpectralP.v: sumr_sumn, csumr_csumn); the reduction only keeps the numbers small when the
+   kernel evaluates the model on float data (a sum of dyadic rationals otherwise multiplies the
+   denominators). *)
+Definition credc (z : C) : C := (Qred (re z), Qred (im z)).
+Fixpoint sumr (f : nat -> Q) (n : nat) : Q :=
+  match n with O => 0 | S n' => Qred (sumr f n' + f n') end.
+Fixpoint csumr (f : nat -> C) (n : nat) : C :=
+  match n with O => c0 | S n' => credc (cadd (csumr f n') (f n')) end.
+
 Inductive sides_arg := SDefault | SOne | STwo.
 Inductive sides := OneSided | TwoSided.
 
@@ -70,7 +80,7 @@ Definition periodogram (sd : sides) (normalize : bool) (N n : nat) (Fs : Q) (X :
    bin -> Q (a weight array of trailing length 1 is the constant function of the bin);
    denom : bin -> Q. *)
 Definition mtm_sum (K : nat) (wx wy : nat -> nat -> Q) (tx ty : nat -> sig) (f : nat) : C :=
-  csumn (fun k => cmul (cscale (wx k f) (tx k f)) (cconj (cscale (wy k f) (ty k f)))) K.
+  csumr (fun k => cmul (cscale (wx k f) (tx k f)) (cconj (cscale (wy k f) (ty k f)))) K.
 
 (* `sf[1:Fl] *= 2` for one-sided output *)
 Definition dbl (sd : sides) (N : nat) (f : nat) (z : C) : C :=
@@ -84,7 +94,7 @@ Definition mtm_cross (sd : sides) (N K : nat) (wx wy : nat -> nat -> Q) (tx ty :
   dbl sd N f (cscale (/ denom f) (mtm_sum K wx wy tx ty f)).
 
 (* weights given as one ndarray: denom = sum_k |w_k|^2 *)
-Definition auto_denom (K : nat) (w : nat -> nat -> Q) (f : nat) : Q := sumn (fun k => w k f * w k f) K.
+Definition auto_denom (K : nat) (w : nat -> nat -> Q) (f : nat) : Q := sumr (fun k => w k f * w k f) K.
 (* the complex value before `.real` *)
 Definition mtm_auto_c (sd : sides) (N K : nat) (w : nat -> nat -> Q) (tx : nat -> sig) (f : nat) : C :=
   mtm_cross sd N K w w tx tx (auto_denom K w) f.
@@ -100,7 +110,7 @@ Definition mt_single (sd : sides) (N : nat) (Fs : Q) (Y : nat -> sig) (k f : nat
   re (dbl sd N f (ofQ (sq (Y k f)))) / Fs.
 
 (* ---- tapered_spectra up to the fft call *)
-Definition cmean (n : nat) (x : sig) : C := cscale (/ inj n) (csumn x n).
+Definition cmean (n : nat) (x : sig) : C := cscale (/ inj n) (csumr x n).
 Definition remove_bias (n : nat) (x : sig) : sig :=
   let m := cmean n x in fun t => csub (x t) m.
 Definition tapered (n : nat) (x : sig) : (nat -> Q) -> sig :=
